@@ -121,6 +121,20 @@ func (e *Env) eval(x Expr) Val {
 		a, b = e.unify(a, b)
 		return Val{T: Ite(c, a.T, b.T), Typ: a.Typ}
 	case *EField:
+		if id, ok := x.X.(*EIdent); ok {
+			if _, bound := e.vars[id.Name]; !bound && u.tpkg.Scope().Lookup(id.Name) == nil {
+				for _, imp := range u.tpkg.Imports() {
+					if imp.Name() == id.Name {
+						switch o := imp.Scope().Lookup(x.Name).(type) {
+						case *types.Var:
+							return e.fc.readGlobal(e.heap, o)
+						case *types.Const:
+							return e.fc.constVal(o.Val(), o.Type())
+						}
+					}
+				}
+			}
+		}
 		base := e.eval(x.X)
 		return e.fieldOf(x.P, base, x.Name)
 	case *EIndex:
@@ -505,8 +519,15 @@ func (fc *FuncCtx) wellFormed(v *Term, t types.Type, alloc *Term) *Term {
 		}
 	case *types.Interface:
 		if v.Sort == SAny {
-			return Implies(&Term{"((_ is a_ref) " + v.S + ")", SBool},
-				And(Ge(App(SInt, "a_ref_v", v), IntLit(0)), Lt(App(SInt, "a_ref_v", v), alloc)))
+			is := func(c string) *Term { return &Term{"((_ is " + c + ") " + v.S + ")", SBool} }
+			fc.d.Fun("tid_kind", []Sort{SInt}, SInt)
+			kind := func(acc string, k int64) *Term { return Eq(App(SInt, "tid_kind", App(SInt, acc, v)), IntLit(k)) }
+			return And(
+				Implies(is("a_ref"), And(Ge(App(SInt, "a_ref_v", v), IntLit(0)), Lt(App(SInt, "a_ref_v", v), alloc), kind("a_ref_ty", 5))),
+				Implies(is("a_int"), kind("a_int_ty", 3)),
+				Implies(is("a_f64"), kind("a_f64_ty", 4)),
+				Implies(is("a_fn"), kind("a_fn_ty", 6)),
+				Implies(is("a_oth"), kind("a_oth_ty", 7)))
 		}
 	case *types.Signature:
 		if v.Sort == SFn {
@@ -679,6 +700,9 @@ func (e *Env) evalCall(x *ECall) Val {
 		a := arg(0)
 		fc.d.Fun("is_map_type", []Sort{SInt}, SBool)
 		return Val{T: App(SBool, "is_map_type", a.T), Typ: tb}
+	case "comparableAny":
+		a := arg(0)
+		return Val{T: fc.comparableAny(a.T), Typ: tb}
 	case "isref":
 		a := arg(0)
 		return Val{T: &Term{"((_ is a_ref) " + a.T.S + ")", SBool}, Typ: tb}
